@@ -309,6 +309,9 @@ class NestedChildren(WrappingQuery):
         def is_active(self):
             return self._nextchild < self._nextparent
 
+        def supports_block_quality(self):
+            return False
+
         def replace(self, minquality=0):
             return self
 
